@@ -53,6 +53,10 @@ def run(ctx):
     ctx.rule("R2", "energy assembly: Etot, excitation energy once, heat of formation, dispersion flag")
     ctx.rule("R3", "gap = e[nocc] - e[nocc-1] of the same spin everywhere")
     ctx.rule("R4", "charges and dipole follow from the reported density, species and coordinates")
+    ctx.rule("R5", "the excitation energy enters Etot only for molecules whose active state is excited; fractional occupations are masked (charges sum to the molecular charge)")
+    _r5_excited_rows(ctx, repo)
+    from .c05 import check_masked_occupations
+    check_masked_occupations(ctx, "R5")
 
     # ------------------------------------------------------------------ R1
     edges = [
@@ -242,3 +246,54 @@ def run(ctx):
     txts = sorted(norm(s.value).replace(" ", "") for s in signs if isinstance(s.value, ast.UnaryOp) or "coord" in norm(s.value) or norm(s.value) == "-dd")
     ctx.check(all(x.startswith("-") for x in txts) and len(txts) >= 4, "R4", dp, cm, "calc_dipole_matrix", "electron sign", "electronic dipole integrals carry the electron's negative charge",
               f"dipole matrix elements are {txts}")
+
+
+def _r5_excited_rows(ctx, repo):
+    """`Etot += X` in Energy.forward: X starts as zeros and every later store into X selects rows with the excited-state mask
+    (active_states > 0).  A whole-tensor rebinding gives ground-state molecules of a mixed batch an excitation energy.
+    One inventoried exception: the XL-ESMD branch (all trajectories are excited there: make_cis_densities raises for active state 0,
+    confirmed at run time with active_state = [0, 1])."""
+    bas = repo.mod("seqm/basics.py")
+    f = bas.func("Energy.forward")
+    adds = [st for st in ast.walk(f) if isinstance(st, ast.AugAssign) and isinstance(st.op, ast.Add) and norm(st.target) == "Etot" and isinstance(st.value, ast.Name)]
+    from ..guards import controlling
+    # the addend that carries the excitation energy: the one whose stores use excitation energies
+    cand = None
+    for a in adds:
+        nm = a.value.id
+        if any(isinstance(st, ast.Assign) and isinstance(st.targets[0], ast.Subscript) and norm(st.targets[0].value) == nm and ("excitation_energies" in norm(st.value) or "cis_energy" in norm(st.value))
+               for st in ast.walk(f)) or nm.lower().startswith("eexc"):
+            cand = a
+    if cand is None:
+        raise AnalysisError("Energy.forward: excitation-energy addend of Etot not found")
+    X = cand.value.id
+    mask_defs = [st for st in ast.walk(f) if isinstance(st, ast.Assign) and isinstance(st.targets[0], ast.Name) and isinstance(st.value, ast.Compare)
+                 and isinstance(st.value.ops[0], ast.Gt) and norm(st.value.comparators[0]) == "0" and "active" in norm(st.value.left)]
+    masks = {st.targets[0].id for st in mask_defs}
+    if not masks:
+        raise AnalysisError("Energy.forward: excited-state mask (active_states > 0) not found")
+    n = 0
+    zero_init = False
+    for st in ast.walk(f):
+        if not isinstance(st, ast.Assign):
+            continue
+        for t in st.targets:
+            if isinstance(t, ast.Name) and t.id == X:
+                n += 1
+                if isinstance(st.value, ast.Call) and (call_name(st.value) or "").split(".")[-1] in ("zeros", "zeros_like"):
+                    zero_init = True
+                    continue
+                ctrl = [(norm(a), p) for a, p, _ in controlling(bas, st, stop=f)]
+                xl = ("self.xlesmd", True) in ctrl
+                ctx.check(xl, "R5", bas, st, "Energy.forward", st, f"whole-tensor assignment of {X} only in the XL-ESMD branch (all trajectories excited there)",
+                          f"`{short(norm(st), 70)}` rebinds {X} for every molecule: in a batch that mixes ground and excited active states the ground-state molecules get an "
+                          f"excitation energy added to Etot / Hf")
+            elif isinstance(t, ast.Subscript) and norm(t.value) == X:
+                n += 1
+                sel = t.slice
+                ok = isinstance(sel, ast.Name) and sel.id in masks
+                ctx.check(ok, "R5", bas, st, "Energy.forward", st, f"{X}[{norm(sel)}] = ...: only excited rows receive an excitation energy",
+                          f"`{short(norm(st), 70)}` writes {X} with selector `{norm(sel)}` which is not the excited-state mask {sorted(masks)}")
+    ctx.check(zero_init, "R5", bas, f, "Energy.forward", f"{X} = zeros", f"{X} starts as zeros", f"{X} is not zero-initialised")
+    if n < 3:
+        raise AnalysisError(f"only {n} stores of {X} found")
